@@ -17,7 +17,7 @@ def run(ctx):
         cases = c01.replay_cases(ctx.replay)
     else:
         full = os.environ.get("VERIF_FULL") == "1"
-        cases = c01.build_cases(ctx, 1200 if ctx.quick else (0 if full else 30000), 300 if ctx.quick else 4000, mc=not ctx.quick, alu_cap_quick=0)
+        cases = c01.build_cases(ctx, 2500 if ctx.quick else (0 if full else 30000), 500 if ctx.quick else 4000, mc=not ctx.quick, alu_cap_quick=0)
     lines = c01.execute(ctx, cases)
     ctx.cov["evaluations"] = len(lines)
     segs = [json.loads(l) for l in lines if '"k":"seg"' in l]
